@@ -268,10 +268,14 @@ mod real {
             let c = *self.rng.pick(&['=', '-', '=', '-', '~']);
             let n = self.rng.range(1, 14);
             let mut s: String = std::iter::repeat(c).take(n).collect();
-            match self.rng.below(5) {
+            // NB: in a file without suffix, a `===` line followed by text anywhere in the file becomes the file's
+            // suffix and no header matches any more (0 tests): keep that case rare
+            let k = self.rng.below(5);
+            let foreign_ok = c != '=' || !suffix.is_empty() || self.rng.chance(1, 6);
+            match k {
                 0 => s.push_str(suffix),
-                1 => s.push_str("|x|"),
-                2 => s.push_str(" trailing"),
+                1 if foreign_ok => s.push_str("|x|"),
+                2 if foreign_ok => s.push_str(" trailing"),
                 _ => {}
             }
             s
@@ -386,6 +390,10 @@ mod real {
                         // a blank line or an argument-less :platform/:language in the NAME region makes the header
                         // ill-formed (rejected, resp. attribute text not recoverable): only after a real marker
                         if (a.is_empty() || a == ":platform") && !attrs.iter().any(real_marker) {
+                            continue;
+                        }
+                        // these two stop the whole run before the file is written: keep them, but rarer
+                        if (a == ":fail-fast" || a == ":language(nope)") && !self.rng.chance(1, 4) {
                             continue;
                         }
                         attrs.push(a.to_string());
